@@ -7,7 +7,3 @@ func runDag(prop string, seed int64, n int, driver, out string, maxFail int, fil
 	return 2
 }
 
-func runFactgen(repo, out string) int {
-	fmt.Println("not implemented")
-	return 2
-}
